@@ -1,1 +1,92 @@
-(* placeholder *)
+(** Trace checker for the C08 correspondence run: replays the operations the harness executed on the
+    real energy-factory + token-unstake + lkmex-transfer + locked-token-wrapper and compares every
+    observation.  Returns [] or [index; field; model value; implementation value] for the first
+    difference.  Field codes: 1 ok/err, 2 outputs, 3 epoch, 100+u energy amount of user u,
+    200+u last update epoch, 300+u total locked tokens, 400+u getEnergyAmountForUser,
+    50+(h+2) a locked-token balance of holder h, 60+(h+2) total locked tokens held by h,
+    70+(h+2) / 80+(h+2) the same for wrapped tokens. *)
+From MX Require Import Base.Prelude Gen.Params Model.Energy.
+
+Record eobs := mkObs {
+  o_ok : bool;
+  o_outs : list Z;
+  o_now : Z;
+  o_en : list (Z * (Z * Z * Z * Z));     (* user, (amount, last update, total locked, amount view) *)
+  o_bal : list (Z * Z * Z);              (* (holder, unlock epoch, balance): every non-zero real balance *)
+  o_tot : list (Z * Z);                  (* (holder, sum of its locked-token balances) *)
+  o_wbal : list (Z * Z * Z);             (* wrapped tokens, by unlock epoch of the wrapped nonce *)
+  o_wtot : list (Z * Z)
+}.
+
+Fixpoint list_eqb (a b : list Z) : bool :=
+  match a, b with
+  | [], [] => true
+  | x :: a', y :: b' => (x =? y) && list_eqb a' b'
+  | _, _ => false
+  end.
+
+Fixpoint first_en_diff (i : Z) (s : st) (l : list (Z * (Z * Z * Z * Z))) : list Z :=
+  match l with
+  | [] => []
+  | (u, (a, up, t, v)) :: tl =>
+      let en := view_entry s u in
+      if negb (e_amt en =? a) then [i; 100 + u; e_amt en; a]
+      else if negb (e_upd en =? up) then [i; 200 + u; e_upd en; up]
+      else if negb (e_tot en =? t) then [i; 300 + u; e_tot en; t]
+      else if negb (view_amount s u =? v) then [i; 400 + u; view_amount s u; v]
+      else first_en_diff i s tl
+  end.
+
+Fixpoint first_bal_diff (i base : Z) (l : ledger) (obs : list (Z * Z * Z)) : list Z :=
+  match obs with
+  | [] => []
+  | (h, e, b) :: tl =>
+      if lget l h e =? b then first_bal_diff i base l tl else [i; base + (h + 2); lget l h e; b]
+  end.
+
+Fixpoint first_tot_diff (i base : Z) (l : ledger) (obs : list (Z * Z)) : list Z :=
+  match obs with
+  | [] => []
+  | (h, b) :: tl =>
+      if ltotal l h =? b then first_tot_diff i base l tl else [i; base + (h + 2); ltotal l h; b]
+  end.
+
+Definition cmp_state (i : Z) (s : st) (o : eobs) : list Z :=
+  if negb (s_now s =? o_now o) then [i; 3; s_now s; o_now o] else
+  match first_en_diff i s (o_en o) with
+  | [] =>
+    match first_bal_diff i 50 (s_bal s) (o_bal o) with
+    | [] =>
+      match first_tot_diff i 60 (s_bal s) (o_tot o) with
+      | [] =>
+        match first_bal_diff i 70 (s_wbal s) (o_wbal o) with
+        | [] => first_tot_diff i 80 (s_wbal s) (o_wtot o)
+        | d => d
+        end
+      | d => d
+      end
+    | d => d
+    end
+  | d => d
+  end.
+
+Fixpoint check_trace (s : st) (i : Z) (tr : list (eop * eobs)) : list Z :=
+  match tr with
+  | [] => []
+  | (op, o) :: t =>
+      match step s op with
+      | Ok (s', outs) =>
+          if negb (o_ok o) then [i; 1; 1; 0]
+          else if negb (list_eqb outs (o_outs o)) then [i; 2; hd (-1) outs; hd (-1) (o_outs o)]
+          else match cmp_state i s' o with
+               | [] => check_trace s' (i + 1) t
+               | d => d
+               end
+      | Err _ =>
+          if o_ok o then [i; 1; 0; 1]
+          else match cmp_state i s o with
+               | [] => check_trace s (i + 1) t
+               | d => d
+               end
+      end
+  end.
